@@ -139,7 +139,15 @@ func TestC11LargeLog(t *testing.T) {
 				var d struct{ ID int }
 				json.Unmarshal(e.Data, &d)
 				ids = append(ids, d.ID)
-				if appended < 700 {
+				// one follow-up event per delivery for the first 50, then - two events before the end of
+				// the log as it was - a burst of 650
+				n := 0
+				if appended < 50 {
+					n = 1
+				} else if len(ids) == L-2 {
+					n = 650
+				}
+				for ; n > 0; n-- {
 					appended++
 					if _, aerr := o.Store.Append(ctx, &ebu.Event{Type: "c11.A", Data: json.RawMessage(fmt.Sprintf(`{"ID":%d}`, 100000+appended)), Timestamp: time.Unix(1, 0)}); aerr != nil {
 						return fmt.Errorf("append from the callback: %w", aerr)
@@ -159,7 +167,7 @@ func TestC11LargeLog(t *testing.T) {
 				}
 			}
 			if err != nil || bad != "" || len(ids) < L {
-				run.Violation(strings.SplitN(kind, "-", 2)[0]+":replay-while-the-callback-appends", fmt.Sprintf("store %s, log of %d events, the replay callback appends one event for each of the first 700 it is given: Replay returned %v after %d deliveries; %s", kind, L, err, len(ids), bad), map[string]any{"store": kind, "log_len": L, "delivered": len(ids)})
+				run.Violation(strings.SplitN(kind, "-", 2)[0]+":replay-while-the-callback-appends", fmt.Sprintf("store %s, log of %d events, the replay callback appends one event for each of the first 50 it is given and a burst of 650 two events before the end: Replay returned %v after %d deliveries; %s", kind, L, err, len(ids), bad), map[string]any{"store": kind, "log_len": L, "delivered": len(ids)})
 			}
 			run.Case(fmt.Sprintf("callback-appends|%s|L%d", kind, L), true)
 			o.Close()
